@@ -291,6 +291,18 @@ def scripted_histories(U):
         ops += evs(0) + [{'k': 'merge', 'dst': 0, 'src': 1, 'ow': ow}, {'k': 'decompose', 'lib': 0, 'm': U.mol(m)}]
         ops += [{'k': 'estimate', 'lib': 0, 'from': len(ops) - 1, 'forMol': U.mol(m)}] + evs(1) + evs(0)
         out.append(ops)
+    # (sixth round) the elemental reference belongs to the molecule, hydrogens included: two molecules with the same heavy atoms
+    # and different hydrogen counts, each decomposed and estimated afresh, asked relative to the elements one after the other
+    def EL(e, q):
+        return [{'k': 'evaluate', 'est': e, 'T': t, 'q': QTYS.index(q), 'el': True} for t in (0, 2)]
+    for lib, m1, m2 in (('BensonGA', 'CCO', 'C1CO1'), ('PPY', 'C=CC', 'CCC'), ('BensonGA', 'CCC', 'C=CC')):
+        ops = [{'k': 'load', 'L': U.lib_ids[lib], 'byPath': False},
+               {'k': 'decompose', 'lib': 0, 'm': U.mol(m1)}, {'k': 'estimate', 'lib': 0, 'from': 1, 'forMol': U.mol(m1)}]
+        ops += EL(0, 'SoR') + EL(0, 'GoRT')
+        ops += [{'k': 'decompose', 'lib': 0, 'm': U.mol(m2)}]
+        ops += [{'k': 'estimate', 'lib': 0, 'from': len(ops) - 1, 'forMol': U.mol(m2)}]
+        ops += EL(1, 'SoR') + EL(1, 'GoRT') + EL(1, 'S:J/mol/K') + EL(0, 'SoR')
+        out.append(ops)
     return out
 
 
